@@ -1,7 +1,8 @@
 from _common import COMMON_NOTE
 
 META = {'title': 'Displayed picture is the standard decode of the ULA-visible screen memory',
- 'lean_modules': ['ZxVerif.Props.C08', 'ZxVerif.Props.C08Sys'],
+ 'lean_modules': ['ZxVerif.Props.C08', 'ZxVerif.Props.C08Sys', 'ZxVerif.Props.C08X'],
+ 'extract': ['VideoConsts'],
  'modelled_code': ['rustzx-core/src/utils/screen.rs',
                    'rustzx-core/src/zx/video/screen.rs',
                    'rustzx-core/src/zx/video/colors.rs',
